@@ -294,7 +294,19 @@ func KSUID(value any) bool { return matchString(value, regex.KSUID) }
 func IPv4(value any) bool { return matchString(value, regex.IPv4) }
 
 // IPv6 reports whether the string is a valid IPv6 address.
-func IPv6(value any) bool { return matchString(value, regex.IPv6) }
+//
+// The address is parsed with netip.ParseAddr: every RFC 4291 text form is
+// accepted (eight groups, one "::", a trailing dotted quad in place of the
+// last two groups), the octets of a dotted quad have no leading zeros, and a
+// zone identifier ("fe80::1%eth0") is not part of an address.
+func IPv6(value any) bool {
+	str, ok := reflectx.StringVal(value)
+	if !ok {
+		return false
+	}
+	addr, err := netip.ParseAddr(str)
+	return err == nil && addr.Is6() && addr.Zone() == ""
+}
 
 // CIDR reports whether the string is valid CIDR notation.
 // The version parameter filters by IP version: 0 for any, 4 for IPv4, 6 for IPv6.
